@@ -140,7 +140,9 @@ BOUNDED = {
         statement="3.0 nullable vs 3.1 type list / null member, single-member allOf/oneOf/anyOf wrapper vs bare $ref, JSON vs "
                   "YAML, path-item parameter vs the same parameter on each operation: byte-identical trees; a default next "
                   "to a wrapped reference is kept",
-        bound="15 document pairs"),
+        bound="16 document pairs",
+        known={"C10-K1-nullable-lost-next-to-type-and-single-allof":
+               lambda case, why: case == "nullable-typed-allof-ref" and "differ" in why}),
 }
 
 
